@@ -33,7 +33,7 @@ func init() {
 		Level: "exploration",
 		Modes: []Mode{{Name: "seq", Weight: 5}, {Name: "conc", Weight: 5}},
 		Gen:   genC04, Run: runC04, Fixed: fixedC04,
-		QuickRuns: 8000, ThoroughRuns: 120000,
+		QuickRuns: 8000, ThoroughRuns: 600000,
 		Rule: "plan = (adapter kind, 2..5 sockets, 2..4 rooms, history of join / leave / disconnect / SocketsJoin / SocketsLeave / DisconnectSockets / namespace broadcast (T,E) / socket broadcast (T,E) / operator reuse, sequential or spread over 2..5 tasks with timestamps, stall parameters focused on adapter_memory.go) from VERIF_SEED; " +
 			"plus one fixed plan enumerating all 2^9 membership matrices of 3 sockets x 3 rooms x all 64 (T,E) pairs (exhaustive, counted separately); non-trivial = a broadcast had both a recipient and a non-recipient (seq) / a membership operation overlapped a broadcast (conc); distinct = distinct history digest",
 		Assumptions: []string{
